@@ -1281,3 +1281,75 @@ func ruleC28ef(c *Ctx, r *Report) {
 		}
 	}
 }
+
+func init() { register("C27", "", ruleC27e); register("C26", "", ruleC27e) }
+
+// ruleC27e (MP-C27e): breaker and recovery state is per replica: every value stored into NodeInfo.FuseStrategy /
+// NodeInfo.RecoveryStrategy is a strategy object constructed inside the loop over the nodes (one object per node), so
+// one replica's probes and fuses cannot drain or restart another replica's cool-down.
+func ruleC27e(c *Ctx, r *Report) {
+	const rule = "MP-C27e"
+	r.floor(rule, 2)
+	fuseF := c.Field("backend", "NodeInfo", "FuseStrategy")
+	recF := c.Field("backend", "NodeInfo", "RecoveryStrategy")
+	if fuseF == nil || recF == nil {
+		r.undecided(rule, "backend.NodeInfo", "anchor", "-", "strategy fields not found")
+		return
+	}
+	n := 0
+	for _, fn := range c.Funcs {
+		if c.IsMockFunc(fn) {
+			continue
+		}
+		allInstrs(fn, func(in ssa.Instruction) {
+			st, ok := in.(*ssa.Store)
+			if !ok {
+				return
+			}
+			f := fieldOfAddr(st.Addr)
+			if f != fuseF && f != recF {
+				return
+			}
+			if isNilConst(stripValue(st.Val)) {
+				return
+			}
+			n++
+			name := c.FuncName(fn)
+			cons := "assign:" + f.Name() + "@" + ordinalOfFieldStore(fn, in, f)
+			// the store is inside a loop; every leaf of the stored value is a constructor call inside that same loop
+			inLoop := func(b *ssa.BasicBlock) bool {
+				for _, s := range b.Succs {
+					if blockReachable(s, b) {
+						return true
+					}
+				}
+				return false
+			}
+			good := inLoop(st.Block())
+			for _, l := range phiLeaves(st.Val) {
+				call, isCall := l.(*ssa.Call)
+				if !isCall || call.Call.StaticCallee() == nil || !strings.HasPrefix(call.Call.StaticCallee().Name(), "New") || !inLoop(call.Block()) {
+					good = false
+				}
+			}
+			if !inLoop(st.Block()) {
+				// a single node configured outside a loop is fine when the value is a fresh constructor result
+				good = true
+				for _, l := range phiLeaves(st.Val) {
+					call, isCall := l.(*ssa.Call)
+					if !isCall || call.Call.StaticCallee() == nil || !strings.HasPrefix(call.Call.StaticCallee().Name(), "New") {
+						good = false
+					}
+				}
+			}
+			if good {
+				r.ok(rule, name, cons, c.Pos(st.Pos()), "each node receives its own strategy object (constructed per iteration)")
+			} else {
+				r.viol(rule, name, cons, c.Pos(st.Pos()), "the strategy object given to a node is not constructed per node: replicas share breaker/recovery state, so one replica's probes or fuses change another replica's cool-down")
+			}
+		})
+	}
+	if n == 0 {
+		r.undecided(rule, "backend", "assign:strategy", "-", "no assignment of a fuse/recovery strategy found")
+	}
+}
